@@ -595,6 +595,10 @@ def backlog_script(seed, idx, fam="backlog"):
     nsyn = backlog + rng.choice([0, 1, 5])
     socks = [sock("A", A_ADDR, rand=[500], link_mtu=576), sock("P", P_ADDR, raw=True)]
     st = []
+    if rng.random() < 0.3:
+        # whatever the socket sends back to this peer is refused by the transport (unroutable source, EPERM, ...):
+        # the socket must carry on
+        st.append({"op": "net_set", "from": "A", "to": "P", "emsgsize_above": 10})
     for i in range(nsyn):
         st.append(peer("syn", cid=1000 + 2 * i, seq=100 + i, to="A"))
         if rng.random() < 0.1:
@@ -701,7 +705,14 @@ def hostile_script(seed, idx, fam="hostile"):
         if k < 0.95:
             return peer("hdr", type=0, plen=0, to="A")
         return peer("reset", rel=rng.choice([0, 1, -1]), to="A")
+    flood_at = rng.choice([-1, -1, -1, 3, 8])
     for r in range(rng.choice([10, 30, 60])):
+        if r == flood_at:
+            # a SYN flood from a source the socket cannot answer (its transport refuses every datagram to it): the
+            # backlog fills, the excess cannot even be refused - the socket and its other connections must carry on
+            st.append({"op": "net_set", "from": "A", "to": "P", "emsgsize_above": 10})
+            st += [peer("syn", cid=(40000 + 2 * i) % 65536, seq=(9000 + i) % 65536, to="A") for i in range(backlog_from_source() + 8)]
+            st.append(sleep(1100))
         st.append(hostile_one())
         if rng.random() < 0.3:
             st.append(sleep(rng.choice([0, 500, 1100, 50000])))
